@@ -1,5 +1,6 @@
 SPECIFICATION TraceSpec
 CONSTANTS MaxSeg = 0
-INVARIANTS TypeOK DataClosed CanonHasHeads HeadOrder HeadStateAvail LookupComplete LookupSound
+INVARIANTS TypeOK DataClosed CanonHasHeads CanonLinkedToHead StaleIsLeftover HeadOrder HeadStateAvail LookupComplete LookupSound
+PROPERTIES EventsDescribeSwitchPending AddedLogsCanonical RemovedWereCanonical HeadEventIsHead
 POSTCONDITION TraceAccepted
 CHECK_DEADLOCK FALSE
